@@ -63,7 +63,7 @@ def classify(case, detail):
                 k = "null-item-in-non-null-list"
             elif r == "merge" and ENUM.search(f["op"]):
                 k = "enum-fields-not-compared"
-            elif r == "merge" and COMPOSITE.search(f["op"]):
+            elif r == "merge" and (COMPOSITE.search(f["op"]) or "composite-conflict" in detail):
                 k = "composite-fields-not-compared"
             elif r == "var-position" and NESTED_VAR.search(f["op"]):
                 k = "nested-variable-type-unchecked"
